@@ -160,6 +160,12 @@ def make_offer_accept(kind, record):
     """server perMessageCompressionAccept policies"""
     if kind in (None, "none"):
         return None
+    if kind == "default":             # what resetProtocolOptions installs: accept nothing
+        def deny(offers):
+            record.append(None)
+            return None
+        deny._av_kind = "default"
+        return deny
     def accept(offers):
         for o in offers:
             nm = type(o).__name__
@@ -169,12 +175,18 @@ def make_offer_accept(kind, record):
                 a = C.PerMessageBzip2OfferAccept(o); record.append(a.get_extension_string()); return a
         record.append(None)
         return None
+    accept._av_kind = kind
     return accept
 
 
 def make_response_accept(kind):
     if kind in (None, "none"):
         return None
+    if kind == "default":
+        def deny(resp):
+            return None
+        deny._av_kind = "default"
+        return deny
     def accept(resp):
         nm = type(resp).__name__
         if kind in ("any", "deflate") and nm == "PerMessageDeflateResponse":
@@ -182,6 +194,7 @@ def make_response_accept(kind):
         if kind in ("any", "bzip2") and nm == "PerMessageBzip2Response":
             return C.PerMessageBzip2ResponseAccept(resp)
         return None
+    accept._av_kind = kind
     return accept
 
 
@@ -295,7 +308,9 @@ def server_cfg_readback(conn):
     p, f = conn.proto, conn.factory
     return {"versions": list(p.versions), "webStatus": bool(p.webStatus), "externalPort": f.externalPort,
             "allowedOrigins": [cps(x) for x in p.allowedOrigins], "patterns": [x.pattern for x in p.allowedOriginsPatterns],
-            "allowNullOrigin": bool(f.allowNullOrigin), "maxConnections": p.maxConnections,
+            "allowNullOrigin": bool(f.allowNullOrigin), "allowNullOrigin_protocol": bool(getattr(p, "allowNullOrigin", None)),
+            "trustXForwardedFor": p.trustXForwardedFor, "requireMaskedClientFrames": bool(p.requireMaskedClientFrames),
+            "perMessageCompressionAccept": getattr(p.perMessageCompressionAccept, "_av_kind", "default"), "maxConnections": p.maxConnections,
             "countConnections": f.countConnections, "serveFlash": bool(p.serveFlashSocketPolicy),
             "server": cps(f.server or ""), "headers": [[cps(k), [cps(x) for x in ([v] if isinstance(v, str) else list(v))]] for k, v in f.headers.items()]}
 
@@ -309,7 +324,16 @@ def run_server(case, chunks=None):
         opts["perMessageCompressionAccept"] = acc
     fk = dict(case.get("factory") or {})
     url = fk.pop("url", "ws://localhost:9000")
-    conn = env.connect("server", options=opts, factory_kwargs=fk, protocol_mixin=policy_mixin(case.get("policy")), url=url)
+    if "calls" in case:
+        # configuration plumbing: the factory is configured by a SEQUENCE of setProtocolOptions() calls, exactly as written
+        conn = env.connect("server", options=None, factory_kwargs=fk, protocol_mixin=policy_mixin(case.get("policy")), url=url)
+        for kw in case["calls"]:
+            kw = dict(kw)
+            if "perMessageCompressionAccept" in kw:
+                kw["perMessageCompressionAccept"] = make_offer_accept(kw["perMessageCompressionAccept"], acc_rec)
+            conn.factory.setProtocolOptions(**kw)
+    else:
+        conn = env.connect("server", options=opts, factory_kwargs=fk, protocol_mixin=policy_mixin(case.get("policy")), url=url)
     conn.factory.countConnections = int(case.get("others", 0))
     conn.make()
     cfg = server_cfg_readback(conn)
@@ -373,6 +397,9 @@ def client_cfg_readback(conn):
             "host": cps(f.host), "port": f.port, "resource": cps(f.resource), "useragent": cps(f.useragent or ""),
             "origin": cps(f.origin or ""), "protocols": [cps(x) for x in f.protocols],
             "headers": [[cps(k), cps(v)] for k, v in f.headers.items()], "version": p.version,
+            "acceptMaskedServerFrames": bool(p.acceptMaskedServerFrames), "maskClientFrames": bool(p.maskClientFrames),
+            "perMessageCompressionAccept": getattr(p.perMessageCompressionAccept, "_av_kind", "default"),
+            "offer_kinds": [type(o).__name__ for o in p.perMessageCompressionOffers],
             "offers": [cps(o.get_extension_string()) for o in p.perMessageCompressionOffers], "isSecure": bool(f.isSecure)}
 
 
@@ -387,7 +414,20 @@ def start_client(case):
         opts["perMessageCompressionAccept"] = racc
     fk = dict(case.get("factory") or {})
     url = fk.pop("url", "ws://localhost:9000")
-    conn = env.connect("client", options=opts, factory_kwargs=fk, url=url)
+    if "calls" in case:
+        conn = env.connect("client", options=None, factory_kwargs=fk, url=url)
+        for kw in case["calls"]:
+            kw = dict(kw)
+            if "perMessageCompressionOffers" in kw:
+                kw["perMessageCompressionOffers"] = make_offers(kw["perMessageCompressionOffers"])
+            if "perMessageCompressionAccept" in kw:
+                racc = make_response_accept(kw["perMessageCompressionAccept"])
+                kw["perMessageCompressionAccept"] = racc
+            conn.factory.setProtocolOptions(**kw)
+        racc = getattr(conn.factory, "perMessageCompressionAccept", None)
+        racc = racc if getattr(racc, "_av_kind", None) else None
+    else:
+        conn = env.connect("client", options=opts, factory_kwargs=fk, url=url)
     _NONCE[0] = bytes.fromhex(case["nonce"])
     try:
         conn.make()
